@@ -44,7 +44,7 @@ ARCH = {  # ppci march -> data model (sizes are re-checked against ppci's arch i
     "msp430": csem.IP16,
     "or1k": csem.DataModel("ilp32be", dict(char=1, short=2, int=4, long=4, llong=8), little_endian=False),
 }
-DESTS = ["char", "uchar", "short", "ushort", "int", "uint", "long", "ulong", "llong"]
+DESTS = ["char", "uchar", "short", "ushort", "int", "uint", "long", "ulong", "llong", "ullong"]
 SHIFT_COUNT_MAX = 79
 MUL_RIGHT_MAX = 0xFFFF
 SHIM_MODULES = ("ppci.lang.c.eval", "ppci.lang.c.context", "ppci.lang.c.codegenerator",
@@ -57,8 +57,8 @@ BOUNDS = {
                                 f"literals inside a shift count: 0..{SHIFT_COUNT_MAX}; literals inside the right factor of a product that has a compound factor "
                                 "(not L, -L, (T)L) or a 64-bit literal in its right factor: 0..65535",
               "expression shapes": "depth 1 exhaustive: leaf op leaf for the 18 binary operators, unary - ~ ! + on a leaf, "
-                                   "casts to the 9 integer types, ?:, with leaves L, (-L), (T)L over literal types int/unsigned/long/unsigned long",
-              "uses": "global scalar initialiser of every integer type (char ... long long); array element, struct field, "
+                                   "casts to the 10 integer types, ?:, with leaves L, (-L), (T)L over literal types int/unsigned/long/unsigned long",
+              "uses": "global scalar initialiser of every integer type (char ... unsigned long long), each also with a literal of its own width over the type's full range as scalar, array element, struct member and static local; array element, struct field, "
                       "static local, bit-field initialiser, case label, enumerator, array size on a subset"},
     "thorough": {"targets": "x86_64 (LP64), arm (ILP32), msp430 (16-bit int), or1k (ILP32, big endian)",
                  "literal values": "as quick",
@@ -108,6 +108,48 @@ def lit_range(dm, suffix):
         # unsuffixed decimal constant typed by its value: up to beyond ULLONG_MAX
         return 0, (1 << 64) + 1000
     return 0, dm.hi(csem.SUFFIX_TYPE[suffix])
+
+
+# ---------------------------------------------------------------------------------------------------
+def float_quot_int(a, b):
+    """int(a / b) for Python integers a, b: exact model of CPython's true division (the correctly rounded, round-half-even,
+    53-bit quotient of the exact integers) followed by truncation; |a|, |b| < 2**64.  Works on plain ints (cross-checked
+    against the real operator in .scratch/c27/fq.py) and on SymInt.  Used only when the code under analysis applies `/`
+    to symbolic integers (harness-side hook of the engine, see CExprHarness.run)."""
+    from ref.csem import _bounded
+    ite = core.ite
+    if b == 0:
+        raise ZeroDivisionError("division by zero")
+    neg = (a < 0) != (b < 0)
+    A, B = abs(a), abs(b)
+    q, rem = A // B, A % B
+    L = q.bit_length()
+    small = L <= 52
+    # integer part shorter than 53 bits: f = 53 - L fraction bits survive; the result is q + 1 iff the fraction rounds
+    # up to 1, i.e. rem/B >= 1 - 2**-(f+1)  (a tie goes to the even upper neighbour)
+    f1 = _bounded(ite(small, 54 - L, 1), 1, 54)
+    res_small = q + ite(((B - rem) << f1) <= B, 1, 0)
+    # exactly 53 bits: round to nearest integer, ties to even
+    res_53 = q + ite(sym_or(2 * rem > B, sym_and(2 * rem == B, (q & 1) == 1)), 1, 0)
+    # longer: the low d = L - 53 bits are rounded away (ties to even; a non-zero remainder breaks the tie upwards)
+    d = _bounded(ite(L >= 54, L - 53, 1), 1, 16)
+    hi = q >> d
+    lo = q - (hi << d)
+    half = 1 << (d - 1)
+    up = sym_or(lo > half, sym_and(lo == half, sym_or(rem != 0, (hi & 1) == 1)))
+    res_large = (hi + ite(up, 1, 0)) << d
+    res = ite(small, res_small, ite(L == 53, res_53, res_large))
+    return ite(neg, -res, res)
+
+
+class FloatQuotient:
+    """result of `a / b` on symbolic integers; only int() of it is supported (through the engine's int shim)"""
+
+    def __init__(self, a, b):
+        self.a, self.b = a, b
+
+    def __symint__(self):
+        return float_quot_int(self.a, self.b)
 
 
 # ---------------------------------------------------------------------------------------------------
@@ -274,6 +316,10 @@ class CExprHarness(Harness):
         self._check_model(get_arch(self.march).info)
         logging.disable(logging.CRITICAL)          # ppci warnings ("Function does not return a value") are noise here
         lv = inp["lits"]
+        if core.ENG is not None:
+            # `a / b` on symbolic integers (only reached if the code under analysis uses true division on integers):
+            # exact model of CPython's correctly rounded quotient; int() of it goes through the int shim
+            core.ENG.truediv_hook = FloatQuotient
         if core.ENG is not None and self.use == "case":
             # CCodeGenerator.switch_options is keyed by the case values; the template has exactly ONE case label
             # (plus possibly the str key "default"), so collapsing the hashes of symbolic integers is sound
@@ -393,7 +439,7 @@ def quick_templates(march="x86_64"):
         for s in ("", "u", "l"):
             for d in ("char", "uint", "long"):
                 T.append(("global", d, [op, lit(0, s)]))
-    for t in DESTS + ["ullong"]:
+    for t in DESTS:
         for s in ("", "ul"):
             for d in ("int", "ulong"):
                 T.append(("global", d, ["cast", t, lit(0, s)]))
@@ -403,6 +449,17 @@ def quick_templates(march="x86_64"):
         for s in ("", "ul"):
             T.append(("global", d, lit(0, s)))
         T.append(("global", d, ["neg", lit(0, "")]))
+    # every integer type initialised by a literal of its own width over the FULL range of the type
+    # (scalar, array element, struct member, static local)
+    own = {"char": ["cast", "char", lit(0, "u")], "uchar": ["cast", "uchar", lit(0, "u")],
+           "short": ["cast", "short", lit(0, "u")], "ushort": ["cast", "ushort", lit(0, "u")],
+           "int": ["cast", "int", lit(0, "u")], "uint": lit(0, "u"), "long": ["cast", "long", lit(0, "ul")],
+           "ulong": lit(0, "ul"), "llong": ["cast", "llong", lit(0, "ull")], "ullong": lit(0, "ull")}
+    for d in DESTS:
+        for use in ("global", "array", "field", "static"):
+            T.append((use, d, own[d]))
+        T.append(("global", d, lit(0, "ull")))
+        T.append(("global", d, lit(0, "ll")))
     # (3) conditional operator
     for d in ("int", "ulong", "char"):
         T.append(("global", d, ["cond", lit(0, ""), lit(1, ""), lit(2, "")]))
